@@ -728,6 +728,14 @@ func (env *specEnv) call(e *ast.CallExpr) Val {
 		return Val{T: "(or (= " + a.T + " " + b.T + ") (and (not (= " + a.T + " 0)) (err.wraps " + a.T + " " + b.T + ")))", Sort: "Bool"}
 	case "int", "uint8", "uint16", "uint32", "uint64", "byte", "int64", "int32", "uint":
 		return Val{T: arg(0).T, Sort: "Int"}
+	case "band", "bor", "bxor", "bandnot":
+		// bitwise operations as the program's: uninterpreted functions with range axioms
+		if !need(2) {
+			return Val{T: "0", Sort: "Int"}
+		}
+		fv.eng.needBitFns = true
+		fn := map[string]string{"band": "bit.and", "bor": "bit.or", "bxor": "bit.xor", "bandnot": "bit.andnot"}[name]
+		return Val{T: "(" + fn + " " + arg(0).T + " " + arg(1).T + ")", Sort: "Int"}
 	case "min":
 		a, b := arg(0), arg(1)
 		return Val{T: "(ite (<= " + a.T + " " + b.T + ") " + a.T + " " + b.T + ")", Sort: "Int"}
